@@ -285,13 +285,55 @@ def _literal_truth(term: str) -> Optional[bool]:
     neg = False
     while t.startswith('not '):
         t, neg = t[4:].strip(), not neg
-    if not t or not (t[0] in '0123456789\'"([{-' or t[:2] in ("b'", 'b"')):
+    if not t or not (t[0] in '0123456789\'"([{-' or t[:2] in ("b'", 'b"') or t.startswith('len(')):
         return None
     try:
         v = ast.literal_eval(t)
     except (ValueError, SyntaxError, MemoryError, RecursionError):
-        return None
+        try:
+            v = _const_eval(ast.parse(t, mode='eval').body)
+        except (ValueError, SyntaxError, MemoryError, RecursionError, TypeError, ZeroDivisionError):
+            return None
     return (not bool(v)) if neg else bool(v)
+
+
+def _const_eval(e):
+    """value of an expression built from literals, ``len()`` of a literal, comparisons, ``+ - *`` and ``not / and / or``"""
+    if isinstance(e, ast.Constant):
+        return e.value
+    if isinstance(e, (ast.Tuple, ast.List)):
+        return tuple(_const_eval(x) for x in e.elts)
+    if isinstance(e, ast.Call) and isinstance(e.func, ast.Name) and e.func.id == 'len' and len(e.args) == 1 and not e.keywords:
+        v = _const_eval(e.args[0])
+        if isinstance(v, (str, bytes, tuple)):
+            return len(v)
+        raise ValueError
+    if isinstance(e, ast.UnaryOp) and isinstance(e.op, ast.Not):
+        return not _const_eval(e.operand)
+    if isinstance(e, ast.UnaryOp) and isinstance(e.op, ast.USub):
+        v = _const_eval(e.operand)
+        if type(v) is int:
+            return -v
+        raise ValueError
+    if isinstance(e, ast.BinOp) and isinstance(e.op, (ast.Add, ast.Sub, ast.Mult)):
+        a, b = _const_eval(e.left), _const_eval(e.right)
+        if type(a) is int and type(b) is int and abs(a) < 1 << 32 and abs(b) < 1 << 32:
+            return a + b if isinstance(e.op, ast.Add) else a - b if isinstance(e.op, ast.Sub) else a * b
+        raise ValueError
+    if isinstance(e, ast.Compare) and len(e.ops) == 1 and isinstance(e.ops[0], (ast.Lt, ast.LtE, ast.Gt, ast.GtE, ast.Eq, ast.NotEq)):
+        a, b = _const_eval(e.left), _const_eval(e.comparators[0])
+        if type(a) is not type(b) or type(a) not in (int, str, bytes):
+            raise ValueError
+        op = e.ops[0]
+        return a < b if isinstance(op, ast.Lt) else a <= b if isinstance(op, ast.LtE) else a > b if isinstance(op, ast.Gt) \
+            else a >= b if isinstance(op, ast.GtE) else a == b if isinstance(op, ast.Eq) else a != b
+    if isinstance(e, ast.Subscript) and isinstance(e.slice, ast.Slice) and e.slice.step is None:
+        v = _const_eval(e.value)
+        lo = None if e.slice.lower is None else _const_eval(e.slice.lower)
+        hi = None if e.slice.upper is None else _const_eval(e.slice.upper)
+        if isinstance(v, (str, bytes, tuple)) and all(x is None or type(x) is int for x in (lo, hi)):
+            return v[lo:hi]
+    raise ValueError
 
 
 def _balanced(t: str) -> bool:
